@@ -20,24 +20,24 @@ package token
 
 //@ func InternToken
 //@   requires t != nil
-//@   requires @C16,C08 internOK()
+//@   requires @C16,C08,C15 internOK()
 //@   modifies map interning
-//@   ensures  @C16,C08 internOK()
-//@   ensures  @C16,C08 result != nil && result.tokenType == old(t.tokenType) && result.literal == old(t.literal)
-//@   safety C16 C08
+//@   ensures  @C16,C08,C15 internOK()
+//@   ensures  @C16,C08,C15 result != nil && result.tokenType == old(t.tokenType) && result.literal == old(t.literal)
+//@   safety C16 C08 C15
 //@   property C16
 
 //@ func Intern
-//@   requires @C16,C08 internOK()
+//@   requires @C16,C08,C15 internOK()
 //@   modifies map interning
-//@   ensures  @C16,C08 internOK()
-//@   ensures  @C16,C08 result != nil && result.tokenType == t && result.literal == literal
+//@   ensures  @C16,C08,C15 internOK()
+//@   ensures  @C16,C08,C15 result != nil && result.tokenType == t && result.literal == literal
 //@   property C16
 
 //@ func LookupIdent
-//@   requires @C16,C08 internOK() && keywordsOK()
+//@   requires @C16,C08,C15 internOK() && keywordsOK()
 //@   modifies map interning
-//@   ensures  @C16,C08 internOK()
-//@   ensures  @C16,C08 result != nil && result.literal == ident
-//@   ensures  @C16,C08 kind:: result.tokenType == IDENT || isIdentity(result.tokenType)
+//@   ensures  @C16,C08,C15 internOK()
+//@   ensures  @C16,C08,C15 result != nil && result.literal == ident
+//@   ensures  @C16,C08,C15 kind:: result.tokenType == IDENT || isIdentity(result.tokenType)
 //@   property C16
